@@ -205,7 +205,8 @@ def _consts(t):
 
 def concrete_search(c, fn):
     import itertools
-    from vc.deffun import to_rec
+    from vc.deffun import eval_closed_term
+    to_rec = lambda t: t
     U, PV = c["U"], c["PV"]
     ident = lambda n: U.node("Identifier", U.strv(n), U.tuplev(z3.Empty(U.Seq)))
     atoms = [ident("f"), U.node("String", U.strv("s")), U.node("Integer", U.strv("1")),
@@ -217,10 +218,10 @@ def concrete_search(c, fn):
     for n in counts:
         for args in itertools.product(atoms, repeat=n):
             node = U.node("Call", func, PV.ListV(U.seq(list(args))))
-            ok = z3.simplify(to_rec(z3.And(c["wt"](node), z3.Not(sound(c, node)))))
+            ok = eval_closed_term(z3.And(c["wt"](node), z3.Not(sound(c, node))))
             if z3.is_true(ok):
-                return {"e": U.decode(node), "inferred": U.decode(z3.simplify(to_rec(c["itype"](node)))),
-                        "odata_type": U.decode(z3.simplify(to_rec(c["otype"](node))))}
+                return {"e": U.decode(node), "inferred": U.decode(eval_closed_term(c["itype"](node))),
+                        "odata_type": U.decode(eval_closed_term(c["otype"](node)))}
     return None
 
 
